@@ -72,6 +72,37 @@ impl<F: std::future::Future> std::future::Future for PollN<F> {
 
 async fn read_until_quiet(mut sock: Socket, sizes: Vec<usize>, quiet_ms: u64, msg_mode: bool, cancel_pm: u64, mut on_read: impl FnMut(usize, Vec<u8>)) {
     let mut i = 0;
+    // some readers poll a non-blocking socket instead of waiting in the call
+    let polling = sim::chance(1, 5);
+    if polling {
+        sim::count("probe_non_blocking_reader");
+        sock.set_blocking(false);
+        let pause = 1 + sim::choose(40);
+        let mut idle = 0u64;
+        while idle < quiet_ms {
+            let n = sizes[i % sizes.len()];
+            i += 1;
+            let got = if msg_mode {
+                sock.recv_msg().await.ok().map(|m| (usize::MAX, m.to_vec()))
+            } else {
+                match sock.recv(n).await {
+                    Ok(b) if !b.is_empty() => Some((n, b)),
+                    _ => None,
+                }
+            };
+            match got {
+                Some((n, b)) => {
+                    idle = 0;
+                    on_read(n, b);
+                }
+                None => {
+                    tokio::time::sleep(Duration::from_millis(pause)).await;
+                    idle += pause;
+                }
+            }
+        }
+        return;
+    }
     loop {
         let n = sizes[i % sizes.len()];
         i += 1;
